@@ -23,16 +23,22 @@ def specs_for(ctx):
         far = rng.random() < 0.08
         seed = rng.randrange(10 ** 9)
         sim = {"theta": rng.choice([rng.uniform(0, 2 * math.pi), rng.choice([0, 1, 2, 3]) * math.pi / 2 + rng.choice([-1, 1]) * 1e-3]),
-               "scale": 10 ** rng.uniform(-3, 3), "offset_sizes": rng.choice([1000, 8000]) if far else rng.uniform(0, 3),
+               "scale": 10 ** (rng.uniform(-8, -5) if rng.random() < 0.2 else rng.uniform(-3, 3)), "offset_sizes": rng.choice([1000, 8000]) if far else rng.uniform(0, 3),
                "offset_angle": rng.uniform(0, 6.28), "extent": 1.0, "reflect": rng.random() < 0.3}
         resample = rng.choice([None, None, 2, 4, 8, 12]) if k >= 2 else None
+        # one in four un-resampled tissues is first analysed at another embedding and then moved IN PLACE on the live objects
+        # (what TimeSeries(cm=True) and Frame.filter_edges do) before the judged inference
+        inplace = None
+        if resample is None and rng.random() < 0.25:
+            inplace = {"theta": rng.uniform(0, 2 * math.pi), "scale": 10 ** rng.uniform(-1, 1), "offset_sizes": rng.uniform(0, 30),
+                       "offset_angle": rng.uniform(0, 6.28), "extent": 1.0}
         for (method, fit) in (GRID if not ctx.quick else rng.sample(GRID, 3)):
             if method in ("lsq",) and tissue["ncells"] > 16:
                 continue
             specs.append({"tissue": tissue, "k": k, "seed": seed, "want": ["C01"], "sim": sim,
                           "build": {"limit": "inf", "fit": fit}, "solve": {"method": method}, "resample": resample,
-                          "require_conditioned": True,
-                          "ids": {"offset": rng.choice([0, 4]), "stride": rng.choice([1, 2])}})
+                          "require_conditioned": True, "inplace_sim": inplace,
+                          "ids": {"offset": rng.choice([0, 4]), "stride": rng.choice([1, 2]), "vperm": rng.random() < 0.5}})
     return specs
 
 
@@ -45,7 +51,7 @@ def run(ctx):
         ctx.add_case(payloads[cid], nontrivial=("C01.clean_case" in hits) and not rej)
     ctx.judge(verdicts, payloads)
     ctx.rule = ("random Voronoi tissues with Maxwell tensions and their Moebius images x interior points 0..16 x "
-                "optional generate_mesh(ne) x rotation (random / near-axis) x scale 1e-3..1e3 x translation x back-end x "
+                "optional generate_mesh(ne) x rotation (random / near-axis) x scale 1e-3..1e3 (one in five: 1e-8..1e-5, lengths in metres) x translation x back-end x "
                 "circle fit; non-trivial = premise holds (well conditioned true system) and no known tangent defect "
                 "touches the case, so the recovery claim was decided on it")
     ctx.assumptions += ["truth (tensions, tangents) from closed forms of gen/equilibrium.py; force balance is an exact identity "
